@@ -1,6 +1,6 @@
 (* Api.v -- the entry points the correspondence driver calls: thin compositions of the
    model's own definitions, nothing new. *)
-From PJ.Model Require Import Base Lookup Terms Wire Encoder Streams Decoder Spec.
+From PJ.Model Require Import Base Lookup Terms Wire Encoder Streams Decoder Spec Audit Source.
 
 (* ---------- LK: writer and reader lookups coupled, one use of a key ---------- *)
 Inductive lk_rule := LkName | LkPrefix | LkDatatype.
@@ -181,3 +181,11 @@ Definition api_grouped_rdflib (o : option soptions) (sinks : list rdata) : res (
     do s <- stream_new (guess_stream_class (so_logical opts) quads) Rdflib opts;
     Ok (rdf_grouped_frames sinks s)
   end.
+
+(* ---------- AU: the compression audit on bytes ---------- *)
+Definition api_audit_bytes (b : list N) : option counters :=
+  match frames_of_bytes b with Some fs => audit_frames fs | None => None end.
+
+(* ---------- PS: a parser run over a source with a read schedule ---------- *)
+Definition api_parse_raw (ig : integ) (grouped strict : bool) (sched : list nat) (b : list N) : parse_result :=
+  parse_source ig grouped strict (Raw sched b).
